@@ -182,6 +182,11 @@ def run(ctx):
         else:
             args = ["-seed", ctx.seed, "-n", 100000, "-hist", 5000, "-dec", 20000, "-str", 20000, "-pairs"]
         rows = run_harness(ctx, "cases.jsonl", args, timeout=3000)
+    skipped = [o for o in rows if o["t"] == "skip"]
+    rows = [o for o in rows if o["t"] != "skip"]
+    if skipped:
+        ctx.broken.append(("correspondence: the cancel-while-offering scenario of the unique logger could not be staged "
+                           "(the implementation passes on another number of results than ID() predicts)", skipped[0]["gen"]))
     for o in rows:
         sample = None
         if o["t"] in ("rec", "log", "uniq"):
